@@ -224,6 +224,15 @@ static void vh_budget_arm(long seconds) {
   setitimer(ITIMER_VIRTUAL, &it, NULL);
 }
 
+/* fork for harnesses: interval timers are not inherited, so the child gets a CPU budget of its own (the per-case budget);
+   a child that spins for ever ends with exit status 3, which the parent reports as a hang of that child */
+static pid_t vh_fork(void) {
+  pid_t pid = fork();
+  if (pid == 0) { vh.progfd = -1; vh_budget_arm(vh.cpu_budget_s > 0 ? vh.cpu_budget_s : 60); }
+  return pid;
+}
+#define VH_CHILD_HUNG(st) (WIFEXITED(st) && WEXITSTATUS(st) == 3)
+
 /* ---------- case bookkeeping ---------- */
 
 static void vh_progress(const char* what) {
